@@ -1147,6 +1147,55 @@ def case_scaled_twins(tier):
     return recs
 
 
+def case_field_state(gname, mesh):
+    """state carried by a Field between uses: grad-based forms re-integrated on the SAME Field object
+    after each public method was called on it with a solution (Evaluate_e with both returnMeanValues,
+    Evaluate_n, Interpolate, copy, __call__, grad) must keep matching the built-in operators"""
+    from EasyFEA.FEM import Field, BiLinearForm, LinearForm, MatrixType, Sym_Grad, Trace
+    from EasyFEA.FEM.Operators import Bilinear, Linear
+    recs = []
+    g = mesh.groupElem
+    dim = g.dim
+
+    def rec(name, ok, d):
+        recs.append({"id": "fieldstate:%s:%s" % (gname, name), "what": name, "ok": bool(ok), "detail": d, "form": name, "kind": "field-state", "tag": "generic"})
+    for q in (1, dim):
+        mt = MatrixType.rigi
+        fld = Field(g, q, mt)
+        sol = 0.25 * np.arange(g.Ncoords * q, dtype=float) - 1.0
+        if q == 1:
+            form = BiLinearForm(lambda u, v: u.grad.dot(v.grad))
+            ref = np.asarray(Bilinear.GradUGradV(g, 1.0, mt))
+            post = lambda f: f.grad.dot(f.grad)
+        else:
+            lam, mu = 3.0, 2.0
+            form = BiLinearForm(lambda u, v: (2 * mu * Sym_Grad(u) + lam * Trace(Sym_Grad(u)) * np.eye(dim)).ddot(Sym_Grad(v)))
+            ns = 3 if dim == 2 else 6
+            C = 2 * mu * np.eye(ns)
+            C[:dim, :dim] += lam
+            ref = np.asarray(Bilinear.LinearizedElasticity(g, C, mt))
+            post = lambda f: Sym_Grad(f).ddot(Sym_Grad(f))
+        mass = BiLinearForm(lambda u, v: u.dot(v))
+        refM = np.asarray(Bilinear.UV(g, 1.0, dof_n=q, matrixType=mt))
+        steps = [("fresh", lambda: None),
+                 ("Evaluate_e(mean)", lambda: fld.Evaluate_e(post, sol, returnMeanValues=True)),
+                 ("Evaluate_e(gauss points)", lambda: fld.Evaluate_e(post, sol, returnMeanValues=False)),
+                 ("Evaluate_n", lambda: fld.Evaluate_n(post, sol)),
+                 ("Interpolate", lambda: fld.Interpolate(sol)),
+                 ("copy", lambda: fld.copy()),
+                 ("__call__ and grad", lambda: (fld(), fld.grad)),
+                 ("Integrate_e of another form", lambda: mass.Integrate_e(fld))]
+        for sname, act in steps:
+            try:
+                act()
+                rec("dof_n=%d: grad form == built-in after %s" % (q, sname), *close(form.Integrate_e(fld), ref))
+                rec("dof_n=%d: u.v == UV after %s" % (q, sname), *close(mass.Integrate_e(fld), refM))
+                rec("dof_n=%d: Assemble after %s" % (q, sname), *close(form.Assemble(fld).toarray(), scatter(g, q, ref)))
+            except Exception as ex:
+                rec("dof_n=%d: after %s" % (q, sname), False, "%s: %s" % (type(ex).__name__, str(ex)[:200]))
+    return recs
+
+
 def run(seed, tier, only=None):
     cases = []
     nform = 4 if tier == "quick" else 14
@@ -1165,6 +1214,12 @@ def run(seed, tier, only=None):
     cases += case_shared_forms(seed, tier)
     cases += case_param_sequences(seed)
     cases += case_large_system(tier)
+    from corr import c16_impl as M16
+    for gname, mesh in [("TRI3-fan", M16.mesh_2d_fan()), ("TETRA4", M16.mesh_3d_tets())] + ([("QUAD4-skew", [m for gn, m in groups(tier) if gn == "QUAD4-skew"][0])] if tier == "thorough" else []):
+        try:
+            cases += case_field_state(gname, mesh)
+        except Exception:
+            cases.append({"id": "fieldstate:%s" % gname, "what": "harness", "ok": False, "detail": traceback.format_exc()[-800:], "form": "", "kind": "harness", "tag": "generic"})
     cases += case_scaled_twins(tier)
     for gname, mesh in [(gn, m) for gn, m in groups(tier) if gn in ("TRI3-fan", "TETRA4", "QUAD4-skew")] + [("TRI3-surf3d", surface_mesh_3d())]:
         try:
